@@ -56,6 +56,14 @@ pub use core;
 // Not public, but exported API. For macro expansion internals only.
 #[doc(hidden)]
 pub mod __private {
+    /// The type given as its argument.
+    ///
+    /// A trait object whose lifetime is left to its default (`dyn Trait`) means in an argument
+    /// position what it means in a field, also where the whole type is put behind a reference
+    /// (a bare `&'a dyn Trait` would be `&'a (dyn Trait + 'a)`).
+    #[allow(type_alias_bounds)]
+    pub type Same<T: ?Sized> = T;
+
     #[cfg(feature = "as_ref")]
     pub use crate::r#as::{Conv, ExtractRef};
 
